@@ -576,31 +576,24 @@ func cloneTablesAreWrittenUnderTheCloneLock(c *core.Ctx) {
 	if clone == nil {
 		core.Undecidedf("VirtualMachine.Clone not found")
 	}
-	held := core.HeldLocks(clone)
+	fns := repoFunctions(p)
+	la := core.AnalyzeLocks(fns, exportedEntry)
+	cm := cloneModelOf(p)
 	tables := map[int]string{}
-	for _, b := range clone.Blocks {
-		for _, in := range b.Instrs {
-			rg, ok := in.(*ssa.Range)
-			if !ok {
-				continue
-			}
-			if u, ok := rg.X.(*ssa.UnOp); ok {
-				if fa, ok := u.X.(*ssa.FieldAddr); ok && core.NamedOf(fa.X.Type()) == vmT && len(clone.Params) > 0 && fa.X == ssa.Value(clone.Params[0]) {
-					for _, l := range held[in].Names() {
-						tables[fa.Field] = l
-					}
-				}
-			}
+	for _, in := range cm.Inits {
+		if in.Kind != "copy" || in.Source < 0 {
+			continue
+		}
+		for _, l := range la.At(in.Fn, in.Read).Names() {
+			tables[in.Source] = l
 		}
 	}
 	if len(tables) < 2 {
 		core.Undecidedf("Clone ranges over %d tables of the VM under a lock", len(tables))
 	}
-	fns := repoFunctions(p)
-	la := core.AnalyzeLocks(fns, exportedEntry)
 	n := 0
 	for _, fn := range repoFns(p, "vm") {
-		if fn == clone {
+		if fn == clone || cm.IsBuilder(fn) {
 			continue
 		}
 		perField := map[int]int{}
@@ -1389,42 +1382,22 @@ func clonesAliasOnlyWhatIsMeantToBeShared(c *core.Ctx) {
 	p := c.P
 	vmT := vmType(p)
 	st := vmT.Underlying().(*types.Struct)
-	var clone *ssa.Function
-	for _, fn := range repoFns(p, "vm") {
-		if fn.Name() == "Clone" && fn.Signature.Recv() != nil && core.NamedOf(fn.Signature.Recv().Type()) == vmT && fn.Parent() == nil {
-			clone = fn
-		}
-	}
-	if clone == nil {
-		core.Undecidedf("VirtualMachine.Clone not found")
-	}
+	cm := cloneModelOf(p)
 	n := 0
-	for _, b := range clone.Blocks {
-		for _, in := range b.Instrs {
-			s, ok := in.(*ssa.Store)
-			if !ok {
-				continue
-			}
-			fa, ok := s.Addr.(*ssa.FieldAddr)
-			if !ok || core.NamedOf(fa.X.Type()) != vmT || !isFreshAlloc(fa.X) {
-				continue
-			}
-			switch st.Field(fa.Field).Type().Underlying().(type) {
-			case *types.Map, *types.Slice, *types.Chan, *types.Pointer, *types.Interface:
-			default:
-				continue
-			}
-			// the same field of the original?
-			src, isLoad := loadOfField(s.Val, vmT, fa.Field)
-			if !isLoad || len(clone.Params) == 0 || src.X != ssa.Value(clone.Params[0]) {
-				continue
-			}
-			n++
-			name := st.Field(fa.Field).Name()
-			why, ok := cloneMayAlias[name]
-			c.Check(ok, "vm.VirtualMachine.Clone|aliases|"+name, p.Pos(s.Pos()),
-				"Clone hands the clone the original's "+name+" as it is"+ife(ok, ": "+why, ", and "+name+" is not in the table of state that is meant to be shared: the original and every clone, each on a goroutine of its own, use one "+st.Field(fa.Field).Type().String()))
+	for _, in := range cm.Inits {
+		if in.Kind != "alias" || in.Source != in.Field {
+			continue
 		}
+		switch st.Field(in.Field).Type().Underlying().(type) {
+		case *types.Map, *types.Slice, *types.Chan, *types.Pointer, *types.Interface:
+		default:
+			continue
+		}
+		n++
+		name := st.Field(in.Field).Name()
+		why, ok := cloneMayAlias[name]
+		c.Check(ok, "vm.VirtualMachine.Clone|aliases|"+name, p.Pos(in.Store.Pos()),
+			"Clone hands the clone the original's "+name+" as it is"+ife(ok, ": "+why, ", and "+name+" is not in the table of state that is meant to be shared: the original and every clone, each on a goroutine of its own, use one "+st.Field(in.Field).Type().String()))
 	}
 	if n < 3 {
 		core.Undecidedf("Clone aliases only %d reference-typed fields", n)
